@@ -68,12 +68,14 @@ def extract(transcript):
     return parts[0], segs
 
 
-def _session(rng, prog, per, ending):
+def _session(rng, prog, per, ending, force_one_line=False):
     """Cut the program into lines; -> (script lines, expected events per line, expected rc, stats)"""
     stats = {'lines_with_code': 0, 'one_command_per_line': 0, 'all_on_one_line': 0, 'blank_or_help': 0, 'clear': 0,
              'jump_across_lines': 0}
     mode = rng.random()
     pcut = 1.0 if mode < 0.2 else (0.0 if mode < 0.3 else 0.5)
+    if force_one_line:
+        pcut = 0.0
     if pcut == 1.0:
         stats['one_command_per_line'] = 1
     if pcut == 0.0:
@@ -176,7 +178,23 @@ def _case(i):
     tier, seed, rundir = _RUN['tier'], _RUN['seed'], _RUN['dir']
     rng = C.rng_for(seed, PID, tier, i)
     res = {'i': i, 'items': [], 'hist': {}, 'status': 'ok'}
-    if rng.random() < 0.15:
+    bulk = False
+    if i % 150 == 7 or rng.random() < 0.003:
+        # ONE entered line that writes thousands of multi-byte characters (several KiB: beyond any 4 / 8 KiB buffer of the
+        # output path), with a short ASCII shift so that buffer boundaries fall inside characters
+        name = 'bulk_output'
+        bulk = True
+        code = rng.choice([0xac00, 0xd55c, 0xe9, 0x1f600, 0x20ac])
+        sink = rng.choice([1, 1, 2])
+        nrep = rng.choice([1366, 2731, 2800, 3000, 4097, 5500])
+        prog = gen.print_chars([rng.choice([65, 66])] * rng.randint(0, 3), 3, sink)
+        if rng.random() < 0.5:
+            # one duplicate command writes nrep copies straight to the sink (the current stack becomes the sink)
+            prog += gen.push_value(code, 3) + [(5, nrep, sink, None)] + [(0, 1, rng.choice([65, 66, 67]), None)] * rng.randint(0, 2)
+        else:
+            nrep = min(nrep, 2300)
+            prog += gen.push_value(code, 3) + [(5, nrep, 4, None)] + [(1, 1, sink, None)] * nrep
+    elif rng.random() < 0.15:
         # a ♡ evaluated before any jump of this program: must do nothing in a fresh (or cleared) state
         name = 'early_heart'
         prog = [(0, 1, rng.randint(0, 3), None) for _ in range(rng.randint(1, 4))]
@@ -206,8 +224,16 @@ def _case(i):
     path = P.write_program(rundir, 'p%d_%d.hyeong' % (os.getpid(), i), text)
     tpath = os.path.join(rundir, 't%d_%d.jsonl' % (os.getpid(), i))
     try:
-        proc, recs, terr = T.run_trace('inc', path, b'', tpath, lim.steps * 2)
-        if not (proc.wall_timeout or proc.cpu_killed or terr):
+        if bulk and len(prog) > 300:
+            # thousands of commands over a stack of thousands of values: the per-command state dump of the library
+            # trace would dominate the run; this shape is about the front end's output path
+            proc, recs, terr = None, None, 'skipped'
+            res['hist']['library_trace_skipped_for_bulk'] = 1
+        else:
+            proc, recs, terr = T.run_trace('inc', path, b'', tpath, lim.steps * 2)
+        if terr == 'skipped':
+            pass
+        elif not (proc.wall_timeout or proc.cpu_killed or terr):
             if proc.crashed:
                 res['items'].append(('v', 'inc-crash:' + res['key'], 'command-by-command execution crashed', {'program': text, 'stderr': C.clip(proc.err, 400)}))
             else:
@@ -229,7 +255,9 @@ def _case(i):
     if BAD_OUT & set(allout):
         res['hist']['binary_skipped_alphabet'] = 1
         return res
-    script, want, rc, stats = _session(rng, prog, per, ending)
+    script, want, rc, stats = _session(rng, prog, per, ending, force_one_line=bulk)
+    if bulk:
+        res['hist']['bulk_output_sessions'] = 1
     C.add_hist(res['hist'], stats)
     if stats.get('clear_after_a_jump') and name == 'early_heart':
         res['hist']['early_heart_after_clear_after_jump'] = 1
@@ -321,5 +349,5 @@ def main(tier, seed):
     assumptions = ['prompt/help/banner wording is not compared', 'the line on which an encoding error occurs is judged only by exit status 1 + diagnostic',
                    'binary sessions restrict the output alphabet; unrestricted outputs are covered by the library path']
     minimum = {'cases': (ev, 500), 'binary sessions': (hist.get('sessions', 0), 300), 'jump across lines': (hist.get('jump_across_lines', 0), 15),
-               'clear': (hist.get('clear', 0), 30), 'clear after a jump': (hist.get('clear_after_a_jump', 0), 15), 'library commands compared': (hist.get('library_commands_compared', 0), 5000)}
+               'clear': (hist.get('clear', 0), 30), 'bulk output sessions': (hist.get('bulk_output_sessions', 0), 8), 'clear after a jump': (hist.get('clear_after_a_jump', 0), 15), 'library commands compared': (hist.get('library_commands_compared', 0), 5000)}
     return rep.finish(cov, assumptions, t0, minimum)
